@@ -5,7 +5,7 @@
    the relativization choices). *)
 From DV Require Import Base.Prelude Model.NameM Model.TokM Model.RdTextM.
 From DV Require Import Proofs.NameValid Proofs.NameText Proofs.TokEsc Proofs.TokTxt Proofs.TokWords
-     Proofs.TokDec Proofs.TokHex Proofs.TokShape Proofs.TokGeneric Proofs.TokUtf8 Proofs.RdTextName Proofs.RdTextAddr Proofs.RdTextBitmap Proofs.RdTextTypes Proofs.RdTextB32 Proofs.RdTextSig Proofs.RdTextEui.
+     Proofs.TokDec Proofs.TokHex Proofs.TokShape Proofs.TokGeneric Proofs.TokUtf8 Proofs.RdTextName Proofs.RdTextAddr Proofs.RdTextBitmap Proofs.RdTextTypes Proofs.RdTextB32 Proofs.RdTextSig Proofs.RdTextEui Proofs.RdTextFmtHex.
 Open Scope Z_scope.
 
 Definition is_rest (f : tfield) : bool :=
@@ -41,6 +41,7 @@ Definition val_ok (f : tfield) (v : tval) : Prop :=
   | FIntC maxv, VInt z => 0 <= z <= maxv
   | FSigTime, VInt z => 0 <= z <= 4294967295
   | FEui n, VBytes b => all_bytes b = true /\ length b = n /\ (0 < n)%nat
+  | FFmtHex, VBytes t => fmthex_ok t = true
   | _, _ => False
   end.
 
@@ -179,7 +180,7 @@ Lemma field_ok sty c f v ftext v' R q bl :
         (is_rest f = true -> exists te, ungot st_end = Some te /\ is_eol_or_eof te = true).
 Proof.
   intros (Hhs & Hbs & HO) Hv Hp He Hbl HR1 HR2.
-  destruct f as [maxv| |tokmax ctormax ne| | |sc| |v6| | | | | |k| |maxc| |en]; destruct v as [z|b|n|l|ws]; cbn [val_ok] in Hv; try contradiction;
+  destruct f as [maxv| |tokmax ctormax ne| | |sc| |v6| | | | | |k| |maxc| |en|]; destruct v as [z|b|n|l|ws]; cbn [val_ok] in Hv; try contradiction;
     cbn [print_field] in Hp; cbn [expect] in He; cbn [is_rest] in HR1, HR2.
   - (* FDec *)
     inversion Hp; subst ftext. inversion He; subst v'. specialize (HR1 eq_refl).
@@ -485,6 +486,19 @@ Proof.
       change (tIDENT =? tIDENT) with true. change (0 =? 0) with true. cbn [orb negb andb bind fst snd].
       rewrite Ert. reflexivity.
     + cbn [ctor_field]. rewrite Hl, Nat.eqb_refl. reflexivity.
+  - (* FFmtHex *)
+    inversion Hp; subst ftext. inversion He; subst v'. specialize (HR1 eq_refl).
+    destruct (fmthex_word b Hv) as (Hs & Hne).
+    exists (mkTok tIDENT b (has_bs b) None), (stq false R).
+    split; [apply get0_word_q; auto using units_safe|]. split; [reflexivity|]. split.
+    { unfold tok_plain, is_identifier. cbn [ttype tvalue]. rewrite safe_word_not_hash by exact Hs. repeat split; reflexivity. }
+    split; [apply stq_len_word|].
+    intros stX HX _. exists (VBytes b), (stq false R).
+    split; [|split; [|split; [intros _; exists false; reflexivity|discriminate]]].
+    + cbn [parse_field]. unfold get_identifier, get_unescaped. rewrite HX. cbn [bind fst snd]. unfold unescape. cbn [tesc].
+      rewrite has_bs_safe by exact Hs. cbn [negb bind fst snd]. unfold as_identifier, is_identifier. cbn [ttype tvalue].
+      change (tIDENT =? tIDENT) with true. reflexivity.
+    + cbn [ctor_field]. rewrite Hv. reflexivity.
 Qed.
 
 (* ---------- the whole field list ---------- *)
